@@ -6,6 +6,7 @@ import LLFreeV.Model.Codec
 import LLFreeV.Model.Policies
 import LLFreeV.Model.Eval
 import LLFreeV.Model.Conc
+import LLFreeV.Model.Wrapper
 open LLFree
 
 structure St where
@@ -13,6 +14,7 @@ structure St where
   cfg : Option Cfg := none
   mem : Mem := ⟨#[], #[], #[], #[]⟩
   conc : Option ConcSt := none
+  zoff : Nat := 0
 
 def optNat (s : String) : Option (Option Nat) :=
   if s == "-" then some none else s.toNat?.map some
@@ -90,9 +92,16 @@ def step (st : St) (line : String) : St × String :=
     match a.toNat?, b.toNat? with
     | some a, some b => ({ st with geom := ⟨a, b⟩, cfg := none }, "ok")
     | _, _ => (st, "bad-op")
-  | ["new", frames, init, dflt, pol, classes] =>
-    match frames.toNat?, dflt.toNat?, parsePolicy st.geom pol, parseClasses classes with
-    | some frames, some dflt, some pol, some classes =>
+  | "new" :: frames :: init :: dflt :: pol :: classes :: rest =>
+    let zoff? : Option Nat := match rest with
+      | [] => some 0
+      | [z] => if z.startsWith "zone:" then (z.drop 5).toString.toNat? else none
+      | _ => none
+    match frames.toNat?, dflt.toNat?, parsePolicy st.geom pol, parseClasses classes, zoff? with
+    | some frames, some dflt, some pol, some classes, some zoff =>
+      -- `ZoneAlloc::create`: the offset must be aligned to the tree size
+      if zoff % 2 ^ st.geom.treeOrder ≠ 0 then (st, "err init") else
+      let st := { st with zoff := zoff }
       let ini? : Option Init := match init with
         | "free" => some .freeAll | "alloc" => some .allocAll | "recover" => some .recover
         | "none" => some .none | _ => none
@@ -111,7 +120,7 @@ def step (st : St) (line : String) : St × String :=
         let st := { st with cfg := some cfg, mem := mem }
         let (st, o) := run st (initProg cfg ini)
         (st, outStr (fun _ => "ok") o)
-    | _, _, _, _ => (st, "bad-op")
+    | _, _, _, _, _ => (st, "bad-op")
   | "mem" :: rest =>
     -- mem rows <hex>* | huge <hex>* | trees <hex>* | slots <hex>*
     let secs := (" ".intercalate rest).splitOn " | "
@@ -135,6 +144,24 @@ def step (st : St) (line : String) : St × String :=
           let (st, r) := run st (get c f ⟨o, k, l⟩)
           (st, resStr (fun (fr, cl) => s!" {fr} {cl}") r)
         | _, _, _, _ => (st, "bad-op")
+      | "zget", [o, k, l, f] =>
+        match o.toNat?, k.toNat?, optNat l, optNat f with
+        | some o, some k, some l, some f =>
+          let (st, r) := run st (Zone.get c st.zoff f ⟨o, k, l⟩)
+          (st, resStr (fun (fr, cl) => s!" {fr} {cl}") r)
+        | _, _, _, _ => (st, "bad-op")
+      | "zput", [f, o, k, l] =>
+        match f.toNat?, o.toNat?, k.toNat?, optNat l with
+        | some f, some o, some k, some l =>
+          let (st, r) := run st (Zone.put c st.zoff f ⟨o, k, l⟩)
+          (st, resStr (fun _ => "") r)
+        | _, _, _, _ => (st, "bad-op")
+      | "zstatsat", [f, o] =>
+        match f.toNat?, o.toNat? with
+        | some f, some o =>
+          let (st, r) := run st (Zone.statsAt c st.zoff f o)
+          (st, outStr statsStr r)
+        | _, _ => (st, "bad-op")
       | "put", [f, o, k, l] =>
         match f.toNat?, o.toNat?, k.toNat?, optNat l with
         | some f, some o, some k, some l =>
